@@ -6,7 +6,7 @@ use super::common::*;
 use crate::engine::{Obs, Property, Tier, Verdict};
 use crate::gen::{self, Session};
 use crate::refmodel::hpke_ref::{self as r, Suite};
-use crate::suite::{self, DropImage, Fail, ScriptRng, LEDGER_NAMES};
+use crate::suite::{self, DropImage, Fail, ProbePlan, ScriptRng, LEDGER_NAMES};
 use crate::util::hex_short;
 use proptest::prelude::*;
 use serde::{Deserialize, Serialize};
@@ -23,6 +23,12 @@ pub enum Role {
 pub struct Case {
     pub sess: Session,
     pub role: Role,
+    /// operations performed on the context before it is dropped (0, 1 or 2)
+    #[serde(default)]
+    pub ops: u8,
+    /// the drop happens while the thread is unwinding from a caught panic
+    #[serde(default)]
+    pub unwinding: bool,
 }
 
 pub struct P;
@@ -56,11 +62,16 @@ fn check(case: &Case, obs: &mut Obs) -> Verdict {
     let before_ledger = suite::ledger();
     let mut rng = ScriptRng::new(&sess.stream);
     let pair = if auth { Some((&keys.sk_s[..], &keys.pk_s[..])) } else { None };
+    let plan = ProbePlan { ops: case.ops.min(3), unwinding: case.unwinding };
+    obs.label(format!("ops-before-drop:{}", plan.ops));
+    if plan.unwinding {
+        obs.label("drop-during-unwinding");
+    }
     let img: Result<DropImage, Fail> = match case.role {
-        Role::Sender => d.probe_drop_sender(&sess.mode_s(&keys), &keys.pk_r, &sess.info, &mut rng),
-        Role::Receiver => d.probe_drop_receiver(&sess.mode_r(&keys), &keys.sk_r, &enc, &sess.info),
-        Role::SharedSecretEncap => d.probe_drop_shared_secret(&keys.pk_r, pair, &mut rng),
-        Role::SharedSecretDecap => d.probe_drop_shared_secret_decap(&keys.sk_r, if auth { Some(&keys.pk_s[..]) } else { None }, &enc),
+        Role::Sender => d.probe_drop_sender(&sess.mode_s(&keys), &keys.pk_r, &sess.info, &mut rng, plan),
+        Role::Receiver => d.probe_drop_receiver(&sess.mode_r(&keys), &keys.sk_r, &enc, &sess.info, plan),
+        Role::SharedSecretEncap => d.probe_drop_shared_secret(&keys.pk_r, pair, &mut rng, plan),
+        Role::SharedSecretDecap => d.probe_drop_shared_secret_decap(&keys.sk_r, if auth { Some(&keys.pk_s[..]) } else { None }, &enc, plan),
     };
     let after_ledger = suite::ledger();
     let img = match img {
@@ -112,6 +123,19 @@ fn check(case: &Case, obs: &mut Obs) -> Verdict {
         // copies elsewhere in the slot (uninitialised union/padding bytes that carried stale stack
         // contents into the value when it was moved) are outside the statement: observation only
         let stale = find_all(&img.after, secret);
+        // a copy that was NOT in the slot when the value was fresh but is there after the drop was
+        // written by the library during an operation (operations on `&mut self` never copy the whole
+        // value, so nothing stale can arrive that way): that memory held the secret and was not wiped
+        let fresh_offsets = find_all(&img.fresh, secret);
+        if let Some(o) = stale.iter().find(|o| !fresh_offsets.contains(o)) {
+            return Verdict::fail(
+                format!("C16/{}/copy-left-by-operation", name),
+                format!(
+                    "{:?} of {} mode {}: after {} operation(s) and the drop, a copy of the {} ({}) remains at offset {} of the {}-byte value; it was not there when the context was fresh, so the library wrote it and did not wipe it",
+                    case.role, sess.suite.label(), sess.mode, plan.ops, name, hex_short(secret), o, img.after.len()
+                ),
+            );
+        }
         if !stale.is_empty() {
             obs.label(format!("observation:stale-copy-of-{}-outside-live-field:{}:{:?}", name, sess.suite.aead.name(), sess.suite.kdf));
         }
@@ -160,9 +184,9 @@ impl Property for P {
         "C16"
     }
     fn rule(&self) -> String {
-        "Generated: (suite of 48, mode, session inputs, role in {sender context, receiver context, shared secret from encap, shared secret from decap}); swept: all 48 suites x 4 modes x 4 roles. \
+        "Generated: (suite of 48, mode, session inputs, role in {sender context, receiver context, shared secret from encap, shared secret from decap}, 0..=2 operations on the context before the drop, drop either directly or while the thread unwinds from a caught panic); swept: all 48 suites x 4 modes x 4 roles, contexts also after one operation, and every suite once with a drop during unwinding. \
          Oracle (memory image): the value is moved into a pattern-filled Box<MaybeUninit<_>>; base nonce, exporter secret (read through the read-only hook accessors) and the shared secret (public field) must be found BY VALUE in the slot before drop_in_place (otherwise the case is skipped as not observable) and be absent afterwards with zero bytes at those offsets. \
-         Oracle (ledger hook, single-threaded run): per context lifetime >=1 wiping drop of the temporary AEAD key buffer, of a nonce, the exporter secret and the shared secret, and zero drops that left non-zero bytes. \
+         A copy of a secret that is present after the drop at an offset where the fresh value did not have it was written by an operation and is reported; copies already present in the fresh value outside the live field (stale stack bytes inside uninitialised union storage) are recorded as an observation only. Oracle (ledger hook, single-threaded run): per context lifetime >=1 wiping drop of the temporary AEAD key buffer, of a nonce, the exporter secret and the shared secret, and zero drops that left non-zero bytes. \
          Non-trivial: cases in which every secret was located before the drop."
             .into()
     }
@@ -177,7 +201,9 @@ impl Property for P {
         crate::refmodel::selfcheck::oracle_selfcheck(16).map(|_| vec![])
     }
     fn strategy(&self, _tier: Tier) -> BoxedStrategy<Case> {
-        (gen::session_any(), proptest::sample::select(vec![Role::Sender, Role::Receiver, Role::SharedSecretEncap, Role::SharedSecretDecap])).prop_map(|(sess, role)| Case { sess, role }).boxed()
+        (gen::session_any(), proptest::sample::select(vec![Role::Sender, Role::Receiver, Role::SharedSecretEncap, Role::SharedSecretDecap]), 0u8..3, prop::bool::weighted(0.25))
+            .prop_map(|(sess, role, ops, unwinding)| Case { sess, role, ops, unwinding })
+            .boxed()
     }
     fn cases(&self, tier: Tier) -> u32 {
         tier.pick(1000, 10000)
@@ -186,7 +212,15 @@ impl Property for P {
         let mut v = Vec::new();
         for (s, m) in gen::all_cells(&Suite::all48()) {
             for role in [Role::Sender, Role::Receiver, Role::SharedSecretEncap, Role::SharedSecretDecap] {
-                v.push(Case { sess: gen::cell_session(s, m, 16), role });
+                v.push(Case { sess: gen::cell_session(s, m, 16), role, ops: 0, unwinding: false });
+                // one operation before the drop (the per-message nonce at position 0 equals the base
+                // nonce), and a drop during unwinding
+                if matches!(role, Role::Sender | Role::Receiver) {
+                    v.push(Case { sess: gen::cell_session(s, m, 16), role, ops: 1, unwinding: false });
+                }
+                if m == 0 {
+                    v.push(Case { sess: gen::cell_session(s, m, 16), role, ops: 2, unwinding: true });
+                }
             }
         }
         vec![("suite_x_mode_x_role".into(), v)]
